@@ -75,7 +75,7 @@ PROPS = {
   'quick': {'cases': 9600, 'max_size': 300, 'exhaustive': True, 'wall_s': 900},
   'thorough': {'cases': 160000, 'max_size': 400, 'exhaustive': True, 'wall_s': 3400, 'fuzz': {'runs': 400000, 'max_len': 4096, 'jobs': 16}},
   'leaks': True,
-  'essential_classes': ['tlv:serialized-into-caller-buffers', 'option:small-datahash-cache', 'mode:model-signature', 'sig:parsed', 'aggr:parsed', 'ext:parsed', 'pubfile:parsed', 'tlv:parsed', 'element:parsed', 'mode:tree-mutation', 'mode:byte-mutation', 'mode:raw', 'context-reuse-checks'],
+  'essential_classes': ['sig:from-file:longer-than-the-largest-element', 'tlv:serialized-into-caller-buffers', 'option:small-datahash-cache', 'mode:model-signature', 'sig:parsed', 'aggr:parsed', 'ext:parsed', 'pubfile:parsed', 'tlv:parsed', 'element:parsed', 'mode:tree-mutation', 'mode:byte-mutation', 'mode:raw', 'context-reuse-checks'],
   'assumptions': ['only the generated inputs are covered; nothing is claimed for inputs not generated'],
  }, 'C16': {
   'technique': 'model-based property testing (rapidcheck + exhaustive leaf counts) against a reference forest merge and the reference chain formula',
@@ -94,7 +94,7 @@ PROPS = {
   'quick': {'cases': 12800, 'max_size': 300, 'exhaustive': True, 'wall_s': 900},
   'thorough': {'cases': 128000, 'max_size': 400, 'exhaustive': True, 'wall_s': 3000},
   'sim': ['simsock', 'fakecurl', 'simclock'],
-  'essential_classes': ['all-accepted', 'refusal-then-more-leaves', 'has-metadata-leaves', 'max-level-set', 'proofs-checked', 'block-signer:signatures-checked', 'block-signer:reset-compared', 'block-signer:masking+metadata', 'block-signer:high-levels', 'block-signer:leaf-refused', 'block-signer:refusal-inertness-compared'],
+  'essential_classes': ['block-signer:pdu-v1', 'aggregator:first-link-correction-above-the-requested-level', 'aggregator:v1-reply-with-config-and-ack', 'all-accepted', 'refusal-then-more-leaves', 'has-metadata-leaves', 'max-level-set', 'proofs-checked', 'block-signer:signatures-checked', 'block-signer:reset-compared', 'block-signer:masking+metadata', 'block-signer:high-levels', 'block-signer:leaf-refused', 'block-signer:refusal-inertness-compared'],
   'assumptions': ['reference forest merge reflects the documented canonical merge'],
  }, 'C01': {
   'technique': 'model-based property testing (rapidcheck): reference-built signatures with named semantic mutations against an independent evaluation of the consistency conditions',
@@ -138,7 +138,7 @@ PROPS = {
   'quick': {'cases': 32000, 'max_size': 300, 'wall_s': 900},
   'thorough': {'cases': 128000, 'max_size': 400, 'wall_s': 3000},
   'sim': ['simsock', 'fakecurl', 'simclock'],
-  'essential_classes': ['async:signature-requested-twice:level>0', 'credentials-in-uri:key-with-colon', 'reply:request-echoed-around-unauthenticated-response', 'dev:no-request-id', 'readd:same-handle-added-again', 'api:block-signer', 'reply:chains-not-lowest-first', 'dev:honest', 'dev:foreign-id', 'dev:other-hash', 'dev:status', 'dev:error-pdu', 'dev:error-pdu-status0', 'dev:bad-mac', 'dev:no-mac', 'dev:inconsistent-chains', 'dev:other-pdu-version', 'outcome:success', 'outcome:error',
+  'essential_classes': ['api:deprecated-createAggregated:level>0', 'async:signature-requested-twice:level>0', 'credentials-in-uri:key-with-colon', 'reply:request-echoed-around-unauthenticated-response', 'dev:no-request-id', 'readd:same-handle-added-again', 'api:block-signer', 'reply:chains-not-lowest-first', 'dev:honest', 'dev:foreign-id', 'dev:other-hash', 'dev:status', 'dev:error-pdu', 'dev:error-pdu-status0', 'dev:bad-mac', 'dev:no-mac', 'dev:inconsistent-chains', 'dev:other-pdu-version', 'outcome:success', 'outcome:error',
                         'api:async', 'api:signAggregated', 'transport:http', 'transport:tcp', 'pdu:v1', 'pdu:v2', 'untrusted-algorithm'],
   'assumptions': ['simulated sockets / libcurl behave as documented'],
  }, 'C06': {
@@ -212,7 +212,7 @@ PROPS = {
   'quick': {'cases': 12800, 'max_size': 300, 'exhaustive': True, 'wall_s': 1200},
   'thorough': {'cases': 64000, 'max_size': 400, 'exhaustive': True, 'wall_s': 3400},
   'sim': ['simsock', 'fakecurl', 'simclock'],
-  'essential_classes': ['mode:send-timeout-inside-a-request', 'connect:never-completes', 'connect:refused(IN|OUT|ERR|HUP)', 'connect:refused(ERR|HUP)', 'connect-timeout:non-zero', 'mode:handles-added-again', 'mode:random-chunks', 'mode:close-at-offset', 'mode:reset-at-offset', 'mode:blocking-chunks', 'mode:blocking-truncated', 'mode:cut-inside-request-stream', 'eintr-injected', 'split-inside-header', 'request-on-fresh-connection', 'request-cut-short-by-connection-end', 'baseline-with-completed-responses'],
+  'essential_classes': ['blocking:peer-goes-silent-inside-the-reply', 'mode:send-resumes-after-more-than-the-receive-timeout', 'mode:send-timeout-inside-a-request', 'connect:never-completes', 'connect:refused(IN|OUT|ERR|HUP)', 'connect:refused(ERR|HUP)', 'connect-timeout:non-zero', 'mode:handles-added-again', 'mode:random-chunks', 'mode:close-at-offset', 'mode:reset-at-offset', 'mode:blocking-chunks', 'mode:blocking-truncated', 'mode:cut-inside-request-stream', 'eintr-injected', 'split-inside-header', 'request-on-fresh-connection', 'request-cut-short-by-connection-end', 'baseline-with-completed-responses'],
   'assumptions': ['simulated socket semantics as documented in sim/simnet.hpp'],
  }, 'C15': {
   'technique': 'exhaustive outcome/order table + rapidcheck for configuration sets, over simulated endpoints; oracle = first-valid-wins model and a reference fold',
@@ -276,7 +276,8 @@ PROPS = {
           '(small signed file, byte position, mask). Non-trivial = every structure/trust and byte-change case; lookup cases with at least one record. distinct = distinct descriptor.',
   'quick': {'cases': 24000, 'max_size': 300, 'exhaustive': True, 'wall_s': 900},
   'thorough': {'cases': 400000, 'max_size': 400, 'exhaustive': True, 'wall_s': 3400},
-  'essential_classes': ['structure:moved-record-flagged-non-critical', 'find:member', 'find:non-member', 'constraints:empty-file-list-over-context', 'mode:structure-and-trust', 'verified-under-another-context', 'mode:lookup', 'mode:byte-change', 'expect:trusted', 'expect:not-trusted', 'expect:parse-refused', 'signed-range:inexact', 'chain:not-anchored',
+  'leaks': True,
+  'essential_classes': ['leak-check:constraints-with-private-oid', 'structure:moved-record-flagged-non-critical', 'find:member', 'find:non-member', 'constraints:empty-file-list-over-context', 'mode:structure-and-trust', 'verified-under-another-context', 'mode:lookup', 'mode:byte-change', 'expect:trusted', 'expect:not-trusted', 'expect:parse-refused', 'signed-range:inexact', 'chain:not-anchored',
                         'constraints:none', 'constraints:mismatch', 'constraint:proper-prefix', 'constraint:empty', 'constraint:extended', 'flip:signed-range', 'flip:signature-value', 'flip:still-parses',
                         'lookup:ties', 'nearest:hit', 'nearest:miss', 'by-time:hit', 'cert-by-id:hit', 'cert-by-id:miss', 'rule-violated:element-after-signature', 'rule-violated:section-out-of-order'],
   'assumptions': ['certificate validity periods are not varied', 'only the generated inputs are covered'],
